@@ -257,7 +257,10 @@ def _strip_sites(cfg, fn):
     "removal itself is guarded by the non-empty prefix",
 )
 def r07_2(ctx, rep):
-    R = "R07.2"
+    io_stripping(ctx, rep, "R07.2")
+
+
+def io_stripping(ctx, rep, R):
     fn = ctx.func(TREE, "flatten_symbols", R)
     cfg = CFG(fn, R)
     site = TREE + ":flatten_symbols"
@@ -431,6 +434,189 @@ def r07_6(ctx, rep):
     rep.ob(R, TREE + ":flatten_extends", "instance environment kept", keep, "an InstanceClass passed in keeps its modification_environment")
 
 
+# -- R07.7: the skip region of ComponentRefFlattener ---------------------------------------------------------------------
+_BIG = 10 ** 9
+
+
+def _ieval(e, env):
+    """evaluate an integer/boolean expression over `self.<attr>` names (env: attr -> int); None when something else occurs"""
+    if isinstance(e, ast.Constant) and isinstance(e.value, (int, bool)):
+        return e.value
+    if isinstance(e, ast.Attribute) and isinstance(e.value, ast.Name) and e.value.id == "self" and e.attr in env:
+        return env[e.attr]
+    if norm(e) in ("sys.maxsize", "math.inf", "float('inf')", 'float("inf")'):
+        return _BIG
+    if isinstance(e, ast.UnaryOp):
+        v = _ieval(e.operand, env)
+        if v is None:
+            return None
+        return (not v) if isinstance(e.op, ast.Not) else (-v if isinstance(e.op, ast.USub) else None)
+    if isinstance(e, ast.BinOp) and isinstance(e.op, (ast.Add, ast.Sub)):
+        a, b = _ieval(e.left, env), _ieval(e.right, env)
+        if a is None or b is None:
+            return None
+        return a + b if isinstance(e.op, ast.Add) else a - b
+    if isinstance(e, ast.BoolOp):
+        vs = [_ieval(v, env) for v in e.values]
+        if any(v is None for v in vs):
+            return None
+        return all(vs) if isinstance(e.op, ast.And) else any(vs)
+    if isinstance(e, ast.Compare):
+        vals = [_ieval(x, env) for x in [e.left] + e.comparators]
+        if any(v is None for v in vals):
+            return None
+        import operator as _o
+        ops = {ast.Lt: _o.lt, ast.LtE: _o.le, ast.Gt: _o.gt, ast.GtE: _o.ge, ast.Eq: _o.eq, ast.NotEq: _o.ne}
+        ok = True
+        for op, a, b in zip(e.ops, vals, vals[1:]):
+            f = ops.get(type(op))
+            if f is None:
+                return None
+            ok = ok and f(a, b)
+        return ok
+    return None
+
+
+def _counter_offsets(fn, attr, R):
+    """{id(stmt or test expr): offset of self.<attr> relative to its value at entry} for every statement of fn, path-sensitively;
+    a statement reachable with two different offsets is an analysis error (the counter would not be a depth)"""
+    from ..cfg import explore_facts
+    cfg = CFG(fn, R)
+
+    def tr(node, facts):
+        k = dict(facts).get("k", 0)
+        a = node.ast
+        if node.kind == "stmt" and isinstance(a, ast.AugAssign) and norm(a.target) == "self." + attr and isinstance(a.value, ast.Constant):
+            k += a.value.value if isinstance(a.op, ast.Add) else (-a.value.value if isinstance(a.op, ast.Sub) else 0)
+        return frozenset({("k", k)})
+
+    seen = explore_facts(cfg, tr, init=frozenset({("k", 0)}))
+    out = {}
+    for nid, fs in seen.items():
+        node = cfg.nodes[nid]
+        if node.ast is None or not fs:
+            continue
+        ks = {dict(f).get("k", 0) for f in fs}
+        if len(ks) > 1:
+            raise AnalysisError(R, "self.%s has two different offsets at `%s`" % (attr, node.text()[:60]))
+        out[id(node.ast)] = ks.pop()
+    return out
+
+
+@SPEC.rule(
+    "R07.7",
+    "the region ComponentRefFlattener leaves untouched is exactly the subtree of the reference it could not resolve: with the skip "
+    "test, the cutoff assignment (enterComponentRef) and the reset test (exitComponentRef) evaluated over the finite set of orderings "
+    "of depth and cutoff — descendants of the unresolved reference are skipped, the reset fires when that reference is left and not "
+    "when one of its descendants is left, and nothing is skipped once the cutoff is reset",
+)
+def r07_7(ctx, rep):
+    R = "R07.7"
+    ms = ctx.methods(TREE, "ComponentRefFlattener", R)
+    ent, ext = ms.get("enterComponentRef"), ms.get("exitComponentRef")
+    if ent is None or ext is None:
+        raise MechanismMissing(R, "ComponentRefFlattener.enterComponentRef / exitComponentRef not found")
+    # the two attributes: the counter (inc in enter, dec in exit) and the cutoff (assigned from the counter in enter)
+    counter = next((n.target.attr for n in walk_local(ent) if isinstance(n, ast.AugAssign) and isinstance(n.op, ast.Add)
+                    and isinstance(n.target, ast.Attribute) and norm(n.target.value) == "self"), None)
+    if counter is None:
+        raise MechanismMissing(R, "no depth counter incremented in enterComponentRef")
+    cut_asg = [n for n in walk_local(ent) if isinstance(n, ast.Assign) and len(n.targets) == 1 and isinstance(n.targets[0], ast.Attribute)
+               and norm(n.targets[0].value) == "self" and ("self." + counter) in norm(n.value)]
+    if not cut_asg:
+        raise MechanismMissing(R, "no cutoff assigned from self.%s in enterComponentRef" % counter)
+    cutoff = cut_asg[0].targets[0].attr
+    off_e, off_x = _counter_offsets(ent, counter, R), _counter_offsets(ext, counter, R)
+    skips = [n for n in walk_local(ent) if isinstance(n, ast.If) and ("self." + cutoff) in norm(n.test) and any(isinstance(b, ast.Return) for b in n.body)]
+    resets = [n for n in walk_local(ext) if isinstance(n, ast.If) and ("self." + cutoff) in norm(n.test)
+              and any(isinstance(b, ast.Assign) and norm(b.targets[0]) == "self." + cutoff for b in n.body)]
+    if len(skips) != 1 or len(resets) != 1:
+        raise MechanismMissing(R, "expected one skip test in enterComponentRef and one reset test in exitComponentRef, found %d / %d" % (len(skips), len(resets)))
+    skip, reset = skips[0], resets[0]
+    reset_val = next(b.value for b in reset.body if isinstance(b, ast.Assign) and norm(b.targets[0]) == "self." + cutoff)
+    site_e, site_x = TREE + ":ComponentRefFlattener.enterComponentRef", TREE + ":ComponentRefFlattener.exitComponentRef"
+
+    def S(d, c):  # node at depth d entered while the cutoff is c: skipped?
+        return _ieval(skip.test, {counter: (d - 1) + off_e.get(id(skip.test), 0), cutoff: c})
+
+    def A(d):  # cutoff assigned when the node at depth d is not resolved
+        return _ieval(cut_asg[0].value, {counter: (d - 1) + off_e.get(id(cut_asg[0]), 0), cutoff: _BIG})
+
+    def Rs(d, c):  # node at depth d left while the cutoff is c: reset?
+        return _ieval(reset.test, {counter: d + off_x.get(id(reset.test), 0), cutoff: c})
+
+    idle = _ieval(reset_val, {counter: 0, cutoff: 0})
+    probe = [S(2, 1), A(1), Rs(1, 1), idle]
+    if any(v is None for v in probe):
+        raise AnalysisError(R, "skip / cutoff / reset expressions are not integer comparisons of self.%s and self.%s any more" % (counter, cutoff))
+    bad_desc, bad_self, bad_early, bad_idle = [], [], [], []
+    for n in (1, 2, 3):
+        c = A(n)
+        for d in (n + 1, n + 2, n + 3):
+            if not S(d, c):
+                bad_desc.append("reference at depth %d unresolved (cutoff=%s): descendant at depth %d is not skipped" % (n, c, d))
+            if Rs(d, c):
+                bad_early.append("reference at depth %d unresolved: the reset fires when its descendant at depth %d is left" % (n, d))
+        if not Rs(n, c):
+            bad_self.append("reference at depth %d unresolved (cutoff=%s): the reset does not fire when it is left" % (n, c))
+        for d in (1, 2, 3, 4, 5):
+            if S(d, idle):
+                bad_idle.append("cutoff idle (%s): reference at depth %d is skipped" % (idle, d))
+    rep.ob(R, site_e, "descendants of an unresolved reference are skipped", not bad_desc, "; ".join(bad_desc[:3]))
+    rep.ob(R, site_x, "the cutoff is reset when the unresolved reference is left", not bad_self,
+           "; ".join(bad_self[:3]) + " — every reference walked afterwards (the rest of the equation, all later equations) is left unflattened")
+    rep.ob(R, site_x, "the cutoff is not reset while still inside the unresolved reference", not bad_early,
+           "; ".join(bad_early[:3]) + " — the remaining descendants (index expressions of an unresolved name) are flattened as if they were top-level names")
+    rep.ob(R, site_e, "nothing is skipped while the cutoff is idle", not bad_idle, "; ".join(bad_idle[:3]))
+
+
+@SPEC.rule(
+    "R07.8",
+    "array dimensions survive flattening: every assignment to <symbol>.dimensions in flatten_symbols keeps the symbol's own "
+    "dimensions in the new value (the recursion prepends the component's dimensions to the member's), and the attributes copied "
+    "over from a derived type's __value symbol do not include the dimensions — `Voltage v[3]` is still three elements afterwards",
+)
+def r07_8(ctx, rep):
+    R = "R07.8"
+    fn = ctx.func(TREE, "flatten_symbols", R)
+    site = TREE + ":flatten_symbols"
+    asg = [n for n in walk_local(fn) if isinstance(n, ast.Assign) and len(n.targets) == 1 and isinstance(n.targets[0], ast.Attribute)
+           and n.targets[0].attr == "dimensions"]
+    aliases = {}
+    for n in walk_local(fn):
+        if isinstance(n, ast.Assign) and len(n.targets) == 1 and isinstance(n.targets[0], ast.Name) and isinstance(n.value, ast.Name):
+            aliases.setdefault(n.targets[0].id, set()).add(n.value.id)
+            aliases.setdefault(n.value.id, set()).add(n.targets[0].id)
+    n_checked = 0
+    for a in asg:
+        owner = norm(a.targets[0].value)
+        names = {owner} | aliases.get(owner, set())
+        reads = {norm(x.value) for x in ast.walk(a.value) if isinstance(x, ast.Attribute) and x.attr == "dimensions"}
+        n_checked += 1
+        rep.ob(R, site, "%s.dimensions keeps its own value (line %d)" % (owner, a.lineno), bool(reads & names),
+               "`%s`: the new value is not built from %s.dimensions — the dimensions written on the declaration are replaced (by those of "
+               "the type's value symbol, by nothing), so an array of a derived type becomes a scalar" % (norm(a)[:110], owner))
+    # setattr(<symbol>, att, getattr(<__value symbol>, att)) loops: the attribute list must not contain "dimensions"
+    sym_attrs = None
+    for st in ctx.cls("src/pymoca/ast.py", "Symbol", R).body:
+        if isinstance(st, ast.Assign) and norm(st.targets[0]) == "ATTRIBUTES":
+            try:
+                sym_attrs = list(ast.literal_eval(st.value))
+            except ValueError:
+                sym_attrs = [x.value for x in ast.walk(st.value) if isinstance(x, ast.Constant) and isinstance(x.value, str)]
+    for loop in [n for n in walk_local(fn) if isinstance(n, ast.For)]:
+        if not any(isinstance(c, ast.Call) and is_name(c.func, "setattr") for st in loop.body for c in ast.walk(st)):
+            continue
+        words = {x.value for x in ast.walk(loop.iter) if isinstance(x, ast.Constant) and isinstance(x.value, str)}
+        if "ATTRIBUTES" in norm(loop.iter) and sym_attrs:
+            words |= set(sym_attrs)
+        n_checked += 1
+        rep.ob(R, site, "attributes copied from the type's value symbol exclude the dimensions", "dimensions" not in words,
+               "the setattr loop over %s copies `dimensions` from the type's __value symbol over the declaration's own" % norm(loop.iter)[:80])
+    if n_checked < 1:
+        raise MechanismMissing(R, "no dimension assignment / attribute copy loop found in flatten_symbols")
+
+
 # -- seeded variants ---------------------------------------------------------
 from ._mut import delete_stmt_where, replace_in_func  # noqa: E402
 
@@ -539,3 +725,40 @@ def _m11(mod):
         return False
 
     return mod if replace_in_func(mod, "flatten_extends", edit) else None
+
+
+@SPEC.mutant("cutoff reset tested with == instead of <", TREE, "R07.7", "reset")
+def _m_cut1(mod):
+    def edit(fn):
+        for n in ast.walk(fn):
+            if isinstance(n, ast.Compare) and "cutoff_depth" in norm(n):
+                n.ops = [ast.Eq()]
+                return True
+        return False
+
+    return mod if replace_in_func(mod, "ComponentRefFlattener.exitComponentRef", edit) else None
+
+
+@SPEC.mutant("skip test includes the unresolved reference's siblings (>=)", TREE, "R07.7", "idle")
+def _m_cut2(mod):
+    def edit(fn):
+        for n in ast.walk(fn):
+            if isinstance(n, ast.Assign) and norm(n) == "self.cutoff_depth = self.depth":
+                n.value = ast.parse("self.depth - 1", mode="eval").body
+                return True
+        return False
+
+    return mod if replace_in_func(mod, "ComponentRefFlattener.enterComponentRef", edit) else None
+
+
+@SPEC.mutant("derived-type symbol takes the dimensions of the type's value symbol", TREE, "R07.8", "keeps its own value")
+def _m_dim(mod):
+    def edit(fn):
+        hit = False
+        for n in ast.walk(fn):
+            if isinstance(n, ast.Assign) and norm(n) == "flat_sym.dimensions = flat_sym.dimensions":
+                n.value = ast.parse("sym.type.symbols['__value'].dimensions", mode="eval").body
+                hit = True
+        return hit
+
+    return mod if replace_in_func(mod, "flatten_symbols", edit) else None
